@@ -1005,6 +1005,13 @@ func (u *Unit) havocLoop(e *Ev, n ast.Node) {
 		}
 		e.st.named["$heapsHavoced"] = Term{S: "true", Sort: sBool}
 	}
+	// ghost call counters are unknown at a loop head
+	for k := range e.st.named {
+		if strings.HasPrefix(k, "$calls:") {
+			delete(e.st.named, k)
+		}
+	}
+	e.st.named["$callsUnknown"] = Term{S: "true", Sort: sBool}
 }
 
 // loopHeapWrites over-approximates the heaps a loop may write: element heaps of indexed slices,
